@@ -45,7 +45,7 @@ pub const DICT: &[&str] = &[
     "#once", "#assert", "#fill", "#outp", "#unknown", "asm", "true", "false", "$", "pc", "{", "}", "(", ")", "[", "]",
     ",", ":", "::", "=>", "=", "==", "!=", "<", "<=", ">", ">=", "<<", ">>", ">>>", "+", "-", "*", "/", "%", "&", "|",
     "^", "!", "~", "@", "`", "?", "&&", "||", ".", "..", "->", "<-", "#", "\n", " ", "\t", "\r\n", "0", "1", "-1", "255",
-    "256", "0x", "0x00", "0xff", "0b", "0b101", "0o17", "%101", "$ff", "1_000", "0x1_0", "65536", "0x1_0000_0000",
+    "256", "0x", "0x00", "0xff", "0b", "0b101", "0o17", "%101", "$ff", "1_000", "0x1_0", "65536", "0x10_0000",
     "0xffff_ffff_ffff_ffff", "0x1_0000_0000_0000_0000", "0xffffffffffffffffffffffffffffffff", "x", "y", "label", ".local",
     "..deep", "loop", "ld", "u8", "s8", "i8", "u0", "u16", "s1", "le", "sizeof", "assert", "strlen", "utf8", "utf16le",
     "ascii", "incbin", "incbinstr", "inchexstr", "\"abc\"", "\"\"", "\"\\n\"", "\"\\x41\"", "\"\\u{1f600}\"", "\"\\q\"",
